@@ -11,7 +11,7 @@ TRUSTED = ["CBMC 6.11.0 (goto-cc, cbmc; built-in SAT back end), its va_list/memc
            "spec/osc_spec.h: spec_bundle / spec_encode (executable OSC 1.0 specification)",
            "x86-64 LP64 bit-vector semantics; -DNDEBUG as shipped"]
 ASSUMPTIONS = [
-    "bounded: 0..3 elements per bundle, element kinds from {3 message shapes, blob message, 132-byte blob message, bundle{msg}, bundle{bundle{msg},msg}} "
+    "bounded: 0..3 elements per bundle (plus a few sequences of 4 and 5 elements), element kinds from {3 message shapes, blob message, 132-byte blob message, bundle{msg}, bundle{bundle{msg},msg}} "
     "(nesting depth <= 2); payload bytes, all 64-bit time tags, capacity 0..need+8 symbolic",
     "8 elements and depth 3..4 of the property's quantifier are not explored; the element walk is the same loop at every depth",
 ]
@@ -31,9 +31,11 @@ def sequences(tier):
     seqs += [(a,) for a in KINDS]
     if tier == "quick":
         seqs += [("KG",), ("KA", "KG"), ("KG", "KD"), ("KA", "KB"), ("KD", "KC"), ("KC", "KE"), ("KF", "KA"), ("KB", "KB"), ("KE", "KD"),
-                 ("KA", "KD", "KC"), ("KE", "KF", "KB"), ("KC", "KC", "KC")]
+                 ("KA", "KD", "KC"), ("KE", "KF", "KB"), ("KC", "KC", "KC"),
+                 ("KA", "KC", "KD", "KB"), ("KC", "KA", "KC", "KF", "KA")]
     else:
-        seqs += [("KG",), ("KA", "KG"), ("KG", "KD"), ("KG", "KG"), ("KE", "KG", "KA")]
+        seqs += [("KG",), ("KA", "KG"), ("KG", "KD"), ("KG", "KG"), ("KE", "KG", "KA"),
+                 ("KA", "KC", "KD", "KB"), ("KC", "KA", "KC", "KF", "KA"), ("KD", "KD", "KA", "KE"), ("KB", "KB", "KB", "KB", "KB")]
         seqs += list(itertools.product(KINDS, repeat=2))
         seqs += list(itertools.product(["KA", "KB", "KC", "KD", "KE", "KF"], repeat=3))
     return seqs
@@ -43,7 +45,7 @@ def bundle_obligations(ctx, pid, propdef, tier):
     raw = '"%s"' % os.path.join(ctx.repo, "src/rtosc.c")
     obls = []
     for seq in sequences(tier):
-        kinds = ",".join(seq + ("KC",) * (4 - len(seq)))
+        kinds = ",".join(seq + ("KC",) * (6 - len(seq)))
         big = "KG" in seq
         obls.append(Obl("%s.bundle.%s" % (pid, "_".join(seq) or "empty"), pid, "harness/C08/bundle.c", entry="h_bundle",
                         defines=dict({"RTOSC_C": raw, "BN_K": str(len(seq)), "BN_KINDS": kinds, propdef: None}, **({"ELMAX": "136"} if big else {})), mode="bounded",
@@ -67,7 +69,7 @@ def bundle_cap_obligations(ctx, pid, propdef, tier):
         caps = sorted(set(list(range(0, need, 4)) + [need - 1, need, need + 8]))
         if tier == "quick":
             caps = [c for c in caps if c % 8 == 4 or c in (0, need - 1, need)]
-        kinds = ",".join(seq + ("KC",) * (4 - len(seq)))
+        kinds = ",".join(seq + ("KC",) * (6 - len(seq)))
         big = "KG" in seq
         for cap in caps:
             obls.append(Obl("%s.bundle_cap.%s.cap%03d" % (pid, "_".join(seq), cap), pid, "harness/C08/bundle.c", entry="h_bundle",
@@ -84,7 +86,7 @@ def obligations(ctx):
     # known finding (known-findings.txt): an element that is itself a bundle, held in an exact-size object
     raw = '"%s"' % os.path.join(ctx.repo, "src/rtosc.c")
     obls.append(Obl("C08.bundle_exact_nested.KD", "C08", "harness/C08/bundle.c", entry="h_bundle",
-                    defines={"RTOSC_C": raw, "BN_K": "1", "BN_KINDS": "KD,KC,KC,KC", "PROP_C08": None, "BN_EXACT_NESTED": None},
+                    defines={"RTOSC_C": raw, "BN_K": "1", "BN_KINDS": "KD,KC,KC,KC,KC,KC", "PROP_C08": None, "BN_EXACT_NESTED": None},
                     mode="bounded", bound="1 element: bundle{msg} in an exact-size object",
                     cbmc=["--unwind", "100", "--unwinding-assertions"], timeout=900, case={"elements": ["KD (exact size)"]}))
     return obls
